@@ -235,8 +235,44 @@ def finishRange (r : Bounds) (start end_ step : Nat) (extra : BitVec 64) : Outco
   else if step = 0 then .err "zero-step"
   else .ok (getBits start end_ step ||| extra)
 
-/-- Go `getRange(expr, r)`. `wildGuard` = the source contains the check that refuses `*-x`
-(`Gen.wildcardBoundGuard`; without it everything after the hyphen of `*-…` is ignored). -/
+/-- First half of Go `getRange`: the part before `/`, already split at `-` into
+`lh0 :: lhRest`, gives `(start, end, extra)`. `wildGuard` = the source contains the check that
+refuses `*-x` (`Gen.wildcardBoundGuard`; without it everything after the hyphen of `*-…` is
+ignored). -/
+def parseBase (wildGuard : Bool) (r : Bounds) (lh0 : List Char) (lhRest : List (List Char)) :
+    Outcome (Nat × Nat × BitVec 64) :=
+  if isWild lh0 then
+    if wildGuard && !lhRest.isEmpty then .err "wildcard-bound"
+    else .ok (r.min, r.max, starBit)
+  else
+    match parseIntOrName lh0 r.names with
+    | .err e => .err e
+    | .panic w => .panic w
+    | .ok start =>
+      match lhRest with
+      | [] => .ok (start, start, 0)
+      | [lh1] =>
+        match parseIntOrName lh1 r.names with
+        | .err e => .err e
+        | .panic w => .panic w
+        | .ok e => .ok (start, e, 0)
+      | _ => .err "hyphens"
+
+/-- Second half of Go `getRange`: the step (`rsRest` = what follows the first `/`, split at `/`),
+then the range checks. `single` = `len(lowAndHigh) == 1`. -/
+def applyStep (r : Bounds) (single : Bool) (start end_ : Nat) (extra : BitVec 64)
+    (rsRest : List (List Char)) : Outcome (BitVec 64) :=
+  match rsRest with
+  | [] => finishRange r start end_ 1 extra
+  | [st] =>
+    match mustParseInt st with
+    | .err e => .err e
+    | .panic w => .panic w
+    | .ok step =>
+      finishRange r start (if single then r.max else end_) step (if step > 1 then 0 else extra)
+  | _ => .err "slashes"
+
+/-- Go `getRange(expr, r)`. -/
 def getRangeG (wildGuard : Bool) (r : Bounds) (expr : List Char) : Outcome (BitVec 64) :=
   match splitOn '/' expr with
   | [] => .panic "rangeAndStep[0]"
@@ -244,37 +280,10 @@ def getRangeG (wildGuard : Bool) (r : Bounds) (expr : List Char) : Outcome (BitV
     match splitOn '-' rs0 with
     | [] => .panic "lowAndHigh[0]"
     | lh0 :: lhRest =>
-      let base : Outcome (Nat × Nat × BitVec 64) :=
-        if isWild lh0 then
-          if wildGuard && !lhRest.isEmpty then .err "wildcard-bound"
-          else .ok (r.min, r.max, starBit)
-        else
-          match parseIntOrName lh0 r.names with
-          | .err e => .err e
-          | .panic w => .panic w
-          | .ok start =>
-            match lhRest with
-            | [] => .ok (start, start, 0)
-            | [lh1] =>
-              match parseIntOrName lh1 r.names with
-              | .err e => .err e
-              | .panic w => .panic w
-              | .ok e => .ok (start, e, 0)
-            | _ => .err "hyphens"
-      match base with
+      match parseBase wildGuard r lh0 lhRest with
       | .err e => .err e
       | .panic w => .panic w
-      | .ok (start, end_, extra) =>
-        match rsRest with
-        | [] => finishRange r start end_ 1 extra
-        | [st] =>
-          match mustParseInt st with
-          | .err e => .err e
-          | .panic w => .panic w
-          | .ok step =>
-            finishRange r start (if lhRest.isEmpty then r.max else end_) step
-              (if step > 1 then 0 else extra)
-        | _ => .err "slashes"
+      | .ok (start, end_, extra) => applyStep r lhRest.isEmpty start end_ extra rsRest
 
 def getRange (r : Bounds) (expr : List Char) : Outcome (BitVec 64) :=
   getRangeG Gen.wildcardBoundGuard r expr
@@ -314,10 +323,14 @@ def expandLoop (o : Opts) : List Place → List (List Char) → List (List Char)
       | .err e => .err e
       | .panic w => .panic w
 
+/-- `options |= Second` / `options |= Dow` when the optional variant is set. -/
+def Opts.merged (o : Opts) : Opts :=
+  { o with second := o.second || o.secondOptional, dow := o.dow || o.dowOptional }
+
 /-- Go `normalizeFields(fields, options)`. -/
 def normalizeFields (flds : List (List Char)) (o : Opts) : Outcome (List (List Char)) :=
   let optionals := (if o.secondOptional then 1 else 0) + (if o.dowOptional then 1 else 0)
-  let o' : Opts := { o with second := o.second || o.secondOptional, dow := o.dow || o.dowOptional }
+  let o' : Opts := o.merged
   if optionals > 1 then .err "multiple-optionals"
   else
     let max := (places.filter o'.has).length
@@ -382,6 +395,12 @@ def parseDescriptor (env : Env) (descriptor : List Char) (loc : Option String) :
       | some d => .ok (.every (everyDelay d))
     else .err "unrecognized-descriptor"
 
+/-- `strings.Index(spec, "=") + 1` (`-1 + 1 = 0` when there is none). -/
+def afterEq (spec : List Char) : Nat :=
+  match indexOf '=' spec with
+  | none => 0
+  | some e => e + 1
+
 /-- The `TZ=`/`CRON_TZ=` prefix step of `Parse`: returns the location and the remaining spec.
 `guard` = the source checks `i == -1` (`Gen.tzNoSpaceGuard`); without it `spec[eq+1:i]` panics. -/
 def tzPrefix (guard : Bool) (env : Env) (spec : List Char) : Outcome (Option String × List Char) :=
@@ -389,7 +408,7 @@ def tzPrefix (guard : Bool) (env : Env) (spec : List Char) : Outcome (Option Str
     let i : Option Nat := indexOf ' ' spec
     if guard && i.isNone then .err "tz-no-spec"
     else
-      let eq1 : Nat := match indexOf '=' spec with | none => 0 | some e => e + 1
+      let eq1 : Nat := afterEq spec
       match i with
       | none => .panic "slice bounds out of range [:-1]"
       | some i =>
